@@ -80,3 +80,12 @@ mod query_caches_test;
 mod global_calendar_cache_test;
 #[cfg(test)]
 mod global_temporal_index_cache_test;
+
+/// True when `path` names a file inside the segment directory `<shard dir>/<segment_label>/`.
+/// (Cache keys are file paths; `Path::ends_with(label)` on such a key can never match.)
+pub(crate) fn path_in_segment_dir(path: &std::path::Path, segment_label: &str) -> bool {
+    path.parent()
+        .and_then(|dir| dir.file_name())
+        .map(|name| name == std::ffi::OsStr::new(segment_label))
+        .unwrap_or(false)
+}
